@@ -4,7 +4,8 @@
 (* (internal/codegen/table.go AddRow / Array) against its reader (_Find).  *)
 (* Phase "gen": TLC enumerates every sequence of up to 2 rows of length    *)
 (* <= 2 (and up to 3 rows of length <= 1) over the values                  *)
-(* {0, 1, 2, 255, 256, 65536} with increasing sparse indices in 0..3 and   *)
+(* {0, 1, 2, 10, 12, 255, 256, 65536} with increasing sparse indices in    *)
+(* 0..3 and                                                                *)
 (* prints them.  Phase "check": the arrays the real codec produced for     *)
 (* them (harness/cmd/codec) must decode back to the rows: Decode(Encode(r))*)
 (* = r, rows shared only when identical, absent indices marked -1 (uint32 *)
@@ -12,7 +13,7 @@
 (***************************************************************************)
 EXTENDS Integers, Sequences, FiniteSets, TLC, Json, Tables
 
-Vals == {0, 1, 2, 255, 256, 65536}
+Vals == {0, 1, 2, 10, 12, 255, 256, 65536}     \* 10 and 12 are digit-concatenations of smaller values
 Rows2 == {<<>>} \cup {<<a>> : a \in Vals} \cup {<<a, b>> : a \in Vals, b \in Vals}
 Rows1 == {<<>>} \cup {<<a>> : a \in Vals}
 Idx == 0..3
